@@ -1035,6 +1035,12 @@ func (s *ImmuStore) GetWithPrefix(ctx context.Context, prefix []byte, neq []byte
 }
 
 func (s *ImmuStore) GetWithPrefixAndFilters(ctx context.Context, prefix []byte, neq []byte, filters ...FilterFn) (key []byte, valRef ValueRef, err error) {
+	for _, filter := range filters {
+		if filter == nil {
+			return nil, nil, fmt.Errorf("%w: invalid filter function", ErrIllegalArguments)
+		}
+	}
+
 	indexer, err := s.getIndexerFor(prefix)
 	if err != nil {
 		if errors.Is(err, ErrIndexNotFound) {
@@ -1057,13 +1063,17 @@ func (s *ImmuStore) GetWithPrefixAndFilters(ctx context.Context, prefix []byte, 
 	now := time.Now()
 
 	for _, filter := range filters {
-		if filter == nil {
-			return nil, nil, fmt.Errorf("%w: invalid filter function", ErrIllegalArguments)
-		}
-
 		err = filter(valRef, now)
 		if err != nil {
-			return nil, nil, err
+			// the first key having the prefix is filtered out (e.g. deleted or expired),
+			// the following ones may not be
+			snap, serr := s.syncSnapshot(prefix)
+			if serr != nil {
+				return nil, nil, serr
+			}
+			defer snap.Close()
+
+			return snap.nextWithPrefixAndFilters(ctx, prefix, key, neq, err, filters)
 		}
 	}
 
